@@ -45,51 +45,44 @@ impl FencedString {
     }
 
     pub(crate) fn substring(&self, start: usize, end: Option<usize>) -> Self {
+        // positions beyond the end denote the end
+        let start = start.min(self.len());
+        let end = end.map(|e| e.max(start));
         if self.char_starts.is_empty() {
             Self {
-                buffer: (match end {
-                    Some(end) if end < self.len() => self.buffer[start..end].to_string(),
-                    _ => self.buffer[start..].to_string(),
-                }),
+                buffer: self.substr(start, end).to_string(),
                 char_starts: Vec::new(),
             }
         } else {
-            let start_byte = self.char_starts[start];
-            let end_byte = end.and_then(|e| self.char_starts.get(e)).cloned();
-            if let Some(end_byte) = end_byte {
-                Self {
-                    buffer: self.buffer[start_byte..end_byte].to_string(),
-                    char_starts: self.char_starts[start..end.unwrap()]
-                        .iter()
-                        .map(|i| i - start_byte)
-                        .collect(),
-                }
-            } else {
-                Self {
-                    buffer: self.buffer[start_byte..].to_string(),
-                    char_starts: self.char_starts[start..]
-                        .iter()
-                        .map(|i| i - start_byte)
-                        .collect(),
-                }
-            }
+            let start_byte = self.byte_of(start);
+            let end = end.map_or(self.len(), |e| e.min(self.len()));
+            Self::from_string(self.buffer[start_byte..self.byte_of(end)].to_string())
+        }
+    }
+
+    fn byte_of(&self, char_idx: usize) -> usize {
+        if self.char_starts.is_empty() {
+            char_idx.min(self.buffer.len())
+        } else {
+            self.char_starts
+                .get(char_idx)
+                .cloned()
+                .unwrap_or(self.buffer.len())
         }
     }
 
     pub(crate) fn substr(&self, start: usize, end: Option<usize>) -> &str {
+        let start = start.min(self.len());
+        let end = end.map_or(self.len(), |e| e.min(self.len()).max(start));
+        &self.buffer[self.byte_of(start)..self.byte_of(end)]
+    }
+
+    /// char index of a byte offset that lies on a char boundary
+    pub(crate) fn char_idx_of_byte(&self, byte_idx: usize) -> usize {
         if self.char_starts.is_empty() {
-            match end {
-                Some(end) if end < self.len() => &self.buffer[start..end],
-                _ => &self.buffer[start..],
-            }
+            byte_idx
         } else {
-            let start_byte = self.char_starts[start];
-            let end_byte = end.and_then(|e| self.char_starts.get(e)).cloned();
-            if let Some(end_byte) = end_byte {
-                &self.buffer[start_byte..end_byte]
-            } else {
-                &self.buffer[start_byte..]
-            }
+            self.char_starts.partition_point(|s| *s < byte_idx)
         }
     }
 
@@ -158,10 +151,7 @@ impl FencedString {
         if self.buffer.chars().all(char::is_lowercase) {
             None
         } else {
-            Some(Self {
-                buffer: self.buffer.to_lowercase(),
-                char_starts: self.char_starts.clone(),
-            })
+            Some(Self::from_str(&self.buffer.to_lowercase()))
         }
     }
 
